@@ -1,9 +1,11 @@
 //! `vh` — the Rust side of the correspondence check.
 //!   vh gen  <Cxx> <quick|thorough> <seed> <stats.json>   > ops.txt
-//!   vh exec <Cxx>                                        < ops.txt > impl.txt
-//! Every op line is self-contained; `exec` prints exactly one observation line per op line.
-mod c06;
-mod util;
+//!   vh exec                                              < ops.txt > impl.txt
+//! Every op line `<channel> <op> <args…>` is self-contained; `exec` prints exactly one observation line
+//! per op line.  Property modules are `src/cNN.rs` (`generate`, `exec`); `dispatch.rs` is generated.
+mod dispatch;
+pub mod repo;
+pub mod util;
 
 use std::io::{BufRead, BufWriter, Write};
 
@@ -20,9 +22,9 @@ fn main() {
             let mut rng = util::Rng::new(seed ^ 0xC0FF_EE00);
             let mut stats = util::Stats::default();
             let mut ops: Vec<String> = Vec::new();
-            match prop {
-                "C06" => c06::generate(thorough, &mut rng, &mut ops, &mut stats),
-                _ => panic!("unknown property {prop}"),
+            if !dispatch::generate(prop, thorough, &mut rng, &mut ops, &mut stats) {
+                eprintln!("unknown property {prop}");
+                std::process::exit(2);
             }
             for l in &ops {
                 writeln!(out, "{l}").unwrap();
@@ -36,11 +38,9 @@ fn main() {
             for line in stdin.lock().lines() {
                 let line = line.unwrap();
                 let toks: Vec<&str> = line.trim().split(' ').collect();
-                let obs = match toks.first().copied() {
-                    Some("c06") => c06::exec(&toks[1..]),
-                    _ => "bad-op".to_string(),
-                };
+                let obs = dispatch::exec(toks.first().copied().unwrap_or(""), &toks[1.min(toks.len())..]);
                 writeln!(out, "{obs}").unwrap();
+                out.flush().unwrap();
             }
         }
         _ => {
